@@ -37,7 +37,9 @@ type structure []value
 
 // opaque is a cell whose content is not modelled (result of formatting a symbolic
 // number etc.). Any computation that reads it abandons the path.
-type opaque struct{}
+type opaque struct {
+	payload value // for JSON produced by json.Marshal: the marshalled value (so that Unmarshal round-trips)
+}
 
 // symStr is an immutable string some of whose cells are symbolic or opaque.
 type symStr struct {
